@@ -9,7 +9,9 @@ CONST = ["$zero", "$one", "$of", "$pc", "$ssp", "$sp", "$fp", "$hp", "$err", "$g
          "$$arg0", "$$arg1", "$$arg2", "$$arg3", "$$arg4", "$$arg5"]
 CONST_ID = {n: i for i, n in enumerate(CONST)}
 # opcode numbers fixed by convention with coq/Asm/Model.v (OPC_*)
-OPC_FIXED = {"rvrt": 1, "lw": 2, "sw": 3, "cfei": 4, "cfsi": 5, "movi": 6, "add": 7, "slli": 8, "mcp": 9, "mcpi": 10}
+OPC_FIXED = {"rvrt": 1, "lw": 2, "sw": 3, "cfei": 4, "cfsi": 5, "movi": 6, "add": 7, "slli": 8, "mcp": 9, "mcpi": 10,
+             # organisational ops that are not labels/jumps (ControlFlowOp::{Comment, PushAll, PopAll, *OffsetPlaceholder})
+             "": 11, "pusha": 12, "popa": 13, "CONFIGURABLES_OFFSET[0..32]": 14, "DATA": 15}
 RET_TEXT = "jal $zero $$reta i0"
 
 
